@@ -123,8 +123,9 @@ def make_pyvis_net(
     for i, vert in enumerate(verts):
         for edge in vert.links:
 
-            # only draw arrows when we're at the *from* node
-            if vert is edge.v2:
+            # only draw arrows when we're at the *from* node (a self-loop is
+            # both its own from and to node, and is drawn once)
+            if vert is edge.v2 and vert is not edge.v1:
                 continue
 
             other = edge.other(vert)
